@@ -129,7 +129,7 @@ def fieldOk (t : StructTable) (e : Expect) (f : String) : Bool :=
     | some (.call m) => t.entries.all fun en => !en.resetFirst || en.fieldCalls.contains (f ++ "." ++ m)
     | none => false
   | some (.scratch _) => (t.resetRhs f).isNone
-  | some (.defect _) => (t.resetRhs f).isNone
+  | some (.defect _) => true   -- recorded finding: tolerated by `coversExcept` only, never by `covers`
 
 /-- `reset_covers` for one struct: every field is classified, and its classification is backed by
     the regenerated facts; no field is a recorded defect. -/
